@@ -84,9 +84,9 @@ def take(r, k):
     return out
 
 
-def rand_recurrence(rnd, m, exact=None, bounded=None, fmt=None, whole_anchor=True, maxn=6, years=None):
+def rand_recurrence(rnd, m, exact=None, bounded=None, fmt=None, whole_anchor=True, maxn=6, years=None, allow24=False):
     fmt = fmt or rnd.choice([1, 3, 3, 4, 4])
-    a = gen.rand_point(rnd, m, wide=False, whole=whole_anchor, allow24=False, years=years, only_years=bool(years),
+    a = gen.rand_point(rnd, m, wide=False, whole=whole_anchor, allow24=allow24, years=years, only_years=bool(years),
                        zones=[(0, 0), (0, 0), (1, 0), (-3, -30), (5, 30), (13, 45)])
     if a["prec"] != "hms" and rnd.random() < 0.7:
         a = dict(a, prec="hms", mi=max(a["mi"], 0), ss=max(a["ss"], 0))
